@@ -80,6 +80,38 @@ def run(ctx):
         ok = bool(lc) and all(any("child_job.call_hash" == src(i) for i in g.ifs) for n in lc for g in n.generators) and all("child_job.call_hash" in src(n.elt) for n in lc)
         r3.check(ok, f"{m.rel}:Scheduler.{fn.name}:children", "child call hashes are not the call hashes of the finished child jobs in child order", m.rel, fn.lineno)
 
+    r6 = ctx.rule("C20.6", "a job that already carries a call hash (cached / deduplicated) is never given a second call node", floor=2)
+    from ..cfg import CFG, facts_at
+
+    for fn in (rs, rj):
+        v = fn.args.args[1].arg
+        cfg = CFG(fn)
+        for c in calls_in(fn, shallow=True):
+            if call_name(c) in ("self.backend.record_call_node", "hash_call_node"):
+                facts = facts_at(cfg, cfg.node_of(c))
+                ok = (f"{v}.call_hash", False) in facts
+                r6.check(
+                    ok,
+                    f"{m.rel}:Scheduler.{fn.name}:{call_name(c)}:only-without-call_hash",
+                    f"{fn.name} computes/records a call node for a job even when it already has a call_hash (a job collapsed onto an equivalent job, or served from "
+                    "the cache): the call gets a second call node built from the duplicate's empty child list, which is not among its parent's child edges",
+                    m.rel,
+                    c.lineno,
+                )
+
+    r7 = ctx.rule("C20.7", "a collapsed job takes the twin's call hash after the twin has settled", floor=2)
+    col = m.func("Job.collapse")
+    other = col.args.args[1].arg
+    cbs = [st for st in col.body if isinstance(st, (ast.FunctionDef,))]
+    reg = [c for c in calls_in(col, shallow=True) if last_attr(c) == "then" and f"{other}.result_promise" in src(c)]
+    names = [a.id for c in reg for a in c.args if isinstance(a, ast.Name)]
+    for cb in cbs:
+        if cb.name in names:
+            ok = any(isinstance(n, ast.Assign) and src(n.targets[0]) == "self.call_hash" and src(n.value) == f"{other}.call_hash" for n in ast.walk(cb))
+            r7.check(ok, f"{m.rel}:Job.collapse.{cb.name}:call_hash", f"the `{cb.name}` callback does not take over the twin's call_hash: the duplicate records its own call node (with an empty child list) instead of sharing the twin's", m.rel, cb.lineno)
+    early = [n for n in col.body if isinstance(n, ast.Assign) and src(n.targets[0]) == "self.call_hash"]
+    r7.check(not early and len(names) == 2, f"{m.rel}:Job.collapse:call_hash-timing", "Job.collapse copies the twin's call_hash before the twin has settled (it is still None then), so the duplicate later computes a different call node", m.rel, col.lineno)
+
     r4 = ctx.rule("C20.4", "tags are attached to the entity they are computed for", floor=10)
     PAIRS = {
         "TagEntity.Job": lambda t: t.endswith(".id") and "job" in t.lower() and "execution" not in t,
